@@ -284,3 +284,15 @@ def run(ctx):
 
 
 SWEEP = ["concurrent/test_transient_topic.cpp"]
+
+
+# name anchors (validated by tools/rename_sweep.py; a vanished name is exit 2, see core.check_anchor_names)
+ANCHORS = {
+    '_next_consume_index': ['^babylon::ConcurrentTransientTopic(<|$)'],
+    '_next_event_index': ['^babylon::ConcurrentTransientTopic(<|$)'],
+    'ensure': ['^babylon::ConcurrentVector(<|$)'],
+    'for_each': ['^babylon::ConcurrentVector(<|$)'],
+    'is_closed': ['^babylon::ConcurrentTransientTopic(<|$)'],
+    'is_published': ['^babylon::ConcurrentTransientTopic(<|$)'],
+    'wait_until_ready': ['^babylon::ConcurrentTransientTopic(<|$)'],
+}
